@@ -37,7 +37,7 @@ func genC09(g *Gen) {
 			nops := g.R.Range(10, 22)
 			for j := 0; j < nops; j++ {
 				op := c09GenOp(g, s)
-				if op != "reopen" && g.R.Chance(45) {
+				if op != "reopen" && !strings.HasPrefix(op, "xdup") && g.R.Chance(45) {
 					k := []int{1, 1, 2, 2, 3, 3, 4, 5, 6, 8, 12, 50}[g.R.Intn(12)]
 					pct := []int{0, 0, 0, 50, 100, g.R.Intn(101)}[g.R.Intn(6)]
 					g.Count(fmt.Sprintf("pl:k=%s", c09Bucket(k)))
@@ -56,7 +56,7 @@ func genC09(g *Gen) {
 			nops := g.R.Range(5, 9)
 			for j := 0; j < nops; j++ {
 				op := c09GenOp(g, s)
-				if op != "reopen" && g.R.Chance(40) {
+				if op != "reopen" && !strings.HasPrefix(op, "xdup") && g.R.Chance(40) {
 					k := []int{1, 1, 1, 2, 2, 2, 3, 3, 4, 6, 50}[g.R.Intn(11)]
 					g.Count(fmt.Sprintf("kill:k=%s", c09Bucket(k)))
 					emitC09(g, fmt.Sprintf("kill %d | %s", k, op))
@@ -261,6 +261,20 @@ func c09GenOp(g *Gen, s *c09Sim) string {
 					s.hw[3] = committed
 				}
 			}
+			if g.R.Chance(18) {
+				// the same proposal twice in one batch; half of them with a failing physical commit
+				if g.R.Chance(50) {
+					g.Count("xdup:commit-fails")
+					if !fail {
+						// nothing becomes durable: undo the prediction
+						s.props = s.props[:len(s.props)-1]
+						s.leo[3] = s.leo[3] - uint64(n)
+					}
+					return strings.TrimSpace(fmt.Sprintf("xdup fail 3 %d %d %d %d %s", cmd, term, committed, mode, rs))
+				}
+				g.Count("xdup:ok")
+				return strings.TrimSpace(fmt.Sprintf("xdup ok 3 %d %d %d %d %s", cmd, term, committed, mode, rs))
+			}
 			return strings.TrimSpace(fmt.Sprintf("xapp 3 %d %d %d %d %s", cmd, term, committed, mode, rs))
 		case 3: // trunc
 			c := g.R.Range(1, 3)
@@ -306,12 +320,27 @@ func c09GenOp(g *Gen, s *c09Sim) string {
 			return fmt.Sprintf("trunc %d %d", c, to)
 		case 4: // adopt
 			c := g.R.Range(1, 3)
-			if s.hw[c] == 0 && g.R.Chance(85) {
+			if s.hw[c] == 0 && (c == 3 || g.R.Chance(60)) && g.R.Chance(85) {
 				continue
 			}
 			th := uint64(g.R.Intn(int(s.hw[c]) + 1))
 			if th == 0 && g.R.Chance(90) {
 				th = s.hw[c]
+			}
+			if c != 3 && g.R.Chance(30) {
+				// a boundary beyond the local log end: RetainedMaxSeq becomes the LEO floor
+				th = s.leo[c] + uint64(g.R.Range(1, 4))
+				g.Count("adopt:beyond-leo")
+				s.local[c], s.leo[c] = th, th
+				mx := g.R.Range(1, 2)
+				s.queue = append(s.queue, fmt.Sprintf("trim %d %d %d", c, th, mx))
+				if g.R.Chance(50) {
+					s.queue = append(s.queue, "reopen")
+				}
+				rs, _ := s.recs(g, 1, true)
+				s.queue = append(s.queue, fmt.Sprintf("app %d 0 %s", c, rs), fmt.Sprintf("trim %d %d %d", c, th, mx))
+				s.leo[c]++
+				return fmt.Sprintf("adopt %d %d", c, th)
 			}
 			if g.R.Chance(8) {
 				th = s.hw[c] + 1
